@@ -24,7 +24,9 @@ MC_Leads == {
     [text |-> "(x!=y)*a", parse |-> "opaque", coef |-> 0,  body |-> ""],
     [text |-> "-(a//b)", parse |-> "opaque", coef |-> 0,  body |-> ""],
     [text |-> "-(a%b)",  parse |-> "opaque", coef |-> 0,  body |-> ""],
-    [text |-> "a//b",    parse |-> "opaque", coef |-> 0,  body |-> ""] }
+    [text |-> "a//b",    parse |-> "opaque", coef |-> 0,  body |-> ""],
+    [text |-> "0.05*w",  parse |-> "term",   coef |-> 1,  body |-> "0.05*w"],
+    [text |-> "0.025*w", parse |-> "term",   coef |-> 1,  body |-> "0.025*w"] }
 
 MC_Bodies == {"x", "y", "x*y", "x/y", "y/x", "2"}
 \* every accepted two-factor shape: name*name, name/name, number*name, number/name, name/number, name*number
